@@ -4,6 +4,23 @@ import json, subprocess
 
 # id -> (technique, level text, level note, design ref)
 CHECKS = {
+ "C01": ("proptest programs from a dimension-directed generator (TypedGen) whose requested dimension vectors are the independent reference; oracle = allowed error kinds + checker type + run-time unit of every value",
+         "Programs that are dimensionally consistent by construction (rational/composite/unicode exponents, generic and inferred functions at several dimensions, structs, lists, user dimensions and units, conversions, conditionals) are run statement by statement: no rejection, no unit-incompatibility at run time, the checker's type of every definition equals the generator's vector, and the raw run-time unit of every global, struct field and list element has that dimension (RefDim).",
+         "TypedGen's dimension bookkeeping is the reference dimensional analysis; two recorded finding classes (polymorphic literal 0, inexact floating-point exponent) are generated rarely and matched by signature.",
+         "DESIGN.md §4 C01"),
+ "C02": ("proptest consistent programs + mis-dimensioned variants (one equality site multiplied by a unit of time); two-sided oracle accept/type vs reject/nothing-ran",
+         "Each generated multi-statement program must be accepted with the generator's dimension for every definition; each of its 1-3 variants with exactly one equality site mis-dimensioned must be rejected by the type checker as a whole: no print (also none before the bad statement), no definition left, none of its names resolvable.",
+         "Equality sites are places where both sides are closed types, so multiplying one side by `3 second` makes the program inconsistent by construction.",
+         "DESIGN.md §4 C02"),
+ "C09": ("proptest typed AST programs, differential against an independent tree-walking reference evaluator",
+         "Programs over integers, booleans, strings with interpolation, structs, lists, functions with where-clauses, shadowing (also by parameters and unit names), bounded recursion, function redefinition, function values and reverse application are evaluated by numbat and by a reference evaluator with static scoping and left-to-right evaluation; prints, every global's raw value, the final result and EmptyList errors must agree.",
+         "The reference evaluator implements the evaluation rules for the generated subset only (exact integer arithmetic, no floating-point library functions).",
+         "DESIGN.md §4 C09"),
+ "C15": ("fixed special-shape sessions + proptest statements from three generators; round-trip oracle input -> echo -> re-evaluation on a clone of the same pre-state, plus idempotence",
+         "Every accepted statement of 21 fixed sessions (all printer special cases) and of generated sessions (typed statements, dimension-directed expressions, AST programs) is echoed and the echo evaluated on a clone of the pre-state: accepted, same checker types, same result/prints/defined values, same function, unit and dimension definitions, and echoing the echo reproduces the text.",
+         "Values are compared exactly or to 1e-12 (the printer re-associates products); six recorded finding classes are matched by signature; values defined by `use` are not compared (literals with more than 6 digits).",
+         "DESIGN.md §4 C15"),
+
  "C06": ("stateful proptest session histories; metamorphic oracle (history with failing inputs vs the same history without them) + digest invariant after every step",
          "Generated sessions of typed definitions, redefinitions, units, dimensions, structs, imports, expressions and prints interleaved with failing inputs of 13 kinds (every stage), each possibly preceded by successful statements and imports in the same input; after every input the complete definition digests of the two sessions must agree, later inputs must behave identically, names and modules touched by failed inputs are probed at the end.",
          "The session digest (function signatures, unit definitions, dimensions, raw variable values) is what 'the same session' means; source labels are not compared.",
